@@ -6,8 +6,8 @@
 root=$(cd "$(dirname "$0")/.." && pwd); cd "$root"
 n=${1:-6}; glob=${2:-*}
 mkdir -p .parmatrix; rm -f .parmatrix/*.log
-names=$(for d in seeded/$glob/; do b=$(basename "$d"); [[ "$b" == *C05* ]] || echo "$b"; done)
-[ -z "$SKIP_C05" ] && names="$names $(for d in seeded/$glob/; do b=$(basename "$d"); [[ "$b" == *C05* ]] && echo "$b"; done)"
+names=$(for d in $(eval echo seeded/$glob/); do b=$(basename "$d"); [[ "$b" == *C05* ]] || echo "$b"; done)
+[ -z "$SKIP_C05" ] && names="$names $(for d in $(eval echo seeded/$glob/); do b=$(basename "$d"); [[ "$b" == *C05* ]] && echo "$b"; done)"
 k=0
 for name in $names; do echo "$name" >> .parmatrix/list.$((k % n)); k=$((k+1)); done
 for ((i=0;i<n;i++)); do
